@@ -230,6 +230,53 @@ theorem contains_reported_rd (ppf : F → F) (infv α : F) (rows : List (MRow F)
     omega
   exact contains_rd rows p.1 ref hb hi hr
 
+/-! ### the coding of the exposure levels is immaterial -/
+
+/-- recode the exposure levels of a frame (what the caller does when the two arms are stored as −1/+1, 1/2, 0.5/1.5 …;
+    in the model a level is a label and only ever compared for equality) -/
+def recode (φ : Nat → Nat) (rows : List (MRow F)) : List (MRow F) :=
+  rows.map fun r => { r with e := r.e.map φ }
+
+/-- **the bounds do not depend on how the levels are coded**: under an injective recoding `φ` of the level labels the
+    four counts `a, b, y_other, n` of level `φ i` in the recoded frame are those of level `i` in the original, hence so
+    is the reported interval.  (This is what lets the correspondence check present frames whose codes are negative or
+    fractional to the model with the codes numbered 0, 1, 2, …; with `φ = (1 − ·)` on {0,1} it is the 0/1 ↔ 1/0 mirror.) -/
+theorem frechet_relabel (φ : Nat → Nat) (hφ : Function.Injective φ) (rows : List (MRow F)) (i : Nat) :
+    cntED (recode φ rows) (φ i) true = cntED rows i true ∧
+    cntED (recode φ rows) (φ i) false = cntED rows i false ∧
+    ((recode φ rows).filter fun r => r.e.isSome && r.e != some (φ i) && r.d == some true).length =
+      (rows.filter fun r => r.e.isSome && r.e != some i && r.d == some true).length ∧
+    (complete (recode φ rows)).length = (complete rows).length ∧
+    frechet (recode φ rows) (φ i) = frechet rows i := by
+  have he : ∀ r : MRow F, (r.e.map φ == some (φ i)) = (r.e == some i) := by
+    intro r
+    cases h : r.e with
+    | none => simp
+    | some u =>
+      by_cases hu : u = i
+      · simp [hu]
+      · have : φ u ≠ φ i := fun e => hu (hφ e)
+        simp [hu, this]
+  have hc : ∀ dv, cntED (recode φ rows) (φ i) dv = cntED rows i dv := by
+    intro dv; unfold cntED recode
+    rw [List.filter_map, List.length_map]
+    congr 1; apply List.filter_congr; intro r _
+    simp only [Function.comp, he]
+  have hn : (complete (recode φ rows)).length = (complete rows).length := by
+    unfold complete recode
+    rw [List.filter_map, List.length_map]
+    congr 1; apply List.filter_congr; intro r _
+    simp [Function.comp]
+  have hy : ((recode φ rows).filter fun r => r.e.isSome && r.e != some (φ i) && r.d == some true).length =
+      (rows.filter fun r => r.e.isSome && r.e != some i && r.d == some true).length := by
+    unfold recode
+    rw [List.filter_map, List.length_map]
+    congr 1; apply List.filter_congr; intro r _
+    simp only [Function.comp, bne, he]
+    simp
+  refine ⟨hc true, hc false, hy, hn, ?_⟩
+  simp only [frechet, hc, hn, hy]
+
 /-! ### Non-vacuity and scope: concrete data -/
 local instance : Transc ℚ := ⟨id, id, id⟩
 
@@ -262,5 +309,10 @@ def demo3 : List (MRow ℚ) :=
 
 example : (frechet demo3 1).2 = 1 / 2 := by
   simp [frechet, demo3, cntED, complete, fr_lower, fr_upper]; norm_num
+
+/-- `frechet_relabel` on concrete data: the frame of `demoRows` with its levels 0 / 1 recoded as 7 / 4 (reference coded
+    larger, as for codes −1 / −4 numbered by an order-reversing map) reports the same interval for level 4 -/
+example : frechet (recode (fun u => 7 - 3 * u) demoRows) 4 = (-(1 / 3), 2 / 3) := by
+  simp [recode, frechet, demoRows, cntED, complete, fr_lower, fr_upper]; norm_num
 
 end ZV.P19
